@@ -446,6 +446,13 @@ func (rr *RRSIG) Verify(k *DNSKEY, rrset []RR) error {
 			return ErrKey
 		}
 
+		// RFC 6605, Section 4: the signature is r | s, each of exactly the
+		// curve's size; the same integers padded with zero octets are
+		// another octet string, not another spelling of the signature.
+		if len(sigbuf) != 2*((pubkey.Curve.Params().BitSize+7)/8) {
+			return ErrSig
+		}
+
 		// Split sigbuf into the r and s coordinates
 		r := new(big.Int).SetBytes(sigbuf[:len(sigbuf)/2])
 		s := new(big.Int).SetBytes(sigbuf[len(sigbuf)/2:])
